@@ -8,7 +8,12 @@
 //! first copy crosses the dictionary end; then text, dictionary substrings, noise), `period` (continues a short
 //! period of the dictionary tail: overlapping copy across the dictionary end), `text` (static-dictionary words),
 //! `tiny` (0..3 bytes), `long` (longer than the encoder ring buffer), `shrunk` (one last meta-block with d' + len within 16 of a
-//! power of two and a late copy of the oldest dictionary bytes: the decoder's shrunk ring buffer).  APIs: streaming
+//! power of two and a late copy of the oldest dictionary bytes: the decoder's shrunk ring buffer), `ringend` (dictionary of odd / even
+//! length {1,2,3,999,1000,1001,ring-1,ring,ring+1} + input of 1.2..2.5 encoder-ring sizes at lgwin 10..16, so that block writes straddle the
+//! ring end; zero runs, period-p repeats and a "stale tail trap" — a phrase ending exactly at the ring end whose earlier copy continues with
+//! what the ring held at its start one lap before — placed across the k*ring stream positions; one call and chunks of 7 / 4093 / 65537).
+//! `dict ringw <lgwin> <q> <d> <seed> <n1,n2,…>`: `set_custom_dictionary` + `copy_input_to_ring_buffer` calls across the ring end, the whole
+//! allocation (tail mirror, prefix, slack) digested against `BV.Dict.copyInputToRingBuffer`.  APIs: streaming
 //! (`set_custom_dictionary` + `compress_stream`, random chunking) and one-shot `BrotliCompressCustomIoCustomDict`.
 //!
 //! Correspondence stage: `dict book <lgwin> <quality> <size> <seed>` — the book-keeping fields of the encoder right
@@ -191,6 +196,29 @@ pub fn book_only(dict: &[u8], params: &BrotliEncoderParams) -> Result<Book, Stri
     r.map_err(|e| format!("panic: {}", panic_msg(&e)))
 }
 
+/// byte `j` of the generated input of a `dict ringw` line (mirrored by `BV.Dict.inGen`)
+pub fn gen_in(seed: u64, j: u64) -> u8 { ((j * 11 + (j >> 5) * 3 + seed) % 253) as u8 }
+
+/// `set_custom_dictionary` followed by a sequence of `copy_input_to_ring_buffer` calls (no compression): ring geometry, positions and
+/// the digests of the ring content and of the whole allocation (tail mirror, 2-byte prefix, slack included)
+pub fn ring_writes(dict: &[u8], params: &BrotliEncoderParams, seed: u64, writes: &[usize]) -> Result<Book, String> {
+    let r = catch_unwind(AssertUnwindSafe(|| {
+        let mut s = BrotliEncoderStateStruct::new(EncAlloc::default());
+        s.params = params.clone();
+        s.set_custom_dictionary(dict.len(), dict);
+        let mut off = 0u64;
+        for &n in writes {
+            let buf: Vec<u8> = (0..n as u64).map(|i| gen_in(seed, off + i)).collect();
+            s.copy_input_to_ring_buffer(n, &buf);
+            off += n as u64;
+        }
+        let b = book_of(&s);
+        brotli::enc::encode::BrotliEncoderDestroyInstance(&mut s);
+        b
+    }));
+    r.map_err(|e| format!("panic: {}", panic_msg(&e)))
+}
+
 // ------------------------------------------------------------------------------------------------
 
 #[derive(Clone, Debug)]
@@ -207,11 +235,18 @@ impl Case {
         Some(Case { lgwin: f[0] as i32, q: f[1] as i32, d: f[2] as usize, seed: f[3], magic: f[4] != 0, kind: f[5] as u32, api: f[6] as u32, iseed: f[7] })
     }
 }
-pub const KINDS: [&str; 6] = ["tail", "period", "text", "tiny", "long", "shrunk"];
+pub const KINDS: [&str; 7] = ["tail", "period", "text", "tiny", "long", "shrunk", "ringend"];
 
 pub fn d_class(d: usize, lgwin: i32) -> String {
     let w = 1usize << lgwin.clamp(10, 24);
     if d <= 3 { format!("d{}", d) } else if d + 17 == w { "w-17".into() } else if d + 16 == w { "w-16".into() } else if d + 15 == w { "w-15".into() } else if d > w { ">w".into() } else if d + 16 > w { "w-15..w".into() } else { "mid".into() }
+}
+
+/// size of the encoder's ring buffer: `1 << (1 + max(lgwin, lgblock))` with `ComputeLgBlock` for `params.lgblock = 0`
+pub fn enc_ring_size(lgwin: i32, q: i32) -> usize {
+    let lw = lgwin.clamp(10, 24);
+    let lgblock = if q < 2 { lw } else if q < 4 { 14 } else if q >= 9 && lw > 16 { lw.min(18) } else { 16 };
+    1usize << (1 + lw.max(lgblock))
 }
 
 /// input of a case (a function of the case alone)
@@ -258,6 +293,44 @@ pub fn make_input(c: &Case, dict: &[u8]) -> Vec<u8> {
             let head: Vec<u8> = dict[d - de..].iter().cloned().chain(v.iter().cloned()).take(m).collect();
             v.extend_from_slice(&head);
             while v.len() < len { v.push(rng.next() as u8); }
+        }
+        6 => { // ringend: dictionary + input longer than the encoder ring; repeats / runs / a "stale tail trap" placed across the
+               // k*ring boundaries of the STREAM position (= effective dictionary length + input offset)
+            let ring = enc_ring_size(c.lgwin, c.q);
+            let w = (1usize << c.lgwin.clamp(10, 24)) - 16;
+            let de = if c.q >= 2 { d.min(w) } else { 0 };
+            let len = ring * (12 + rng.below(14) as usize) / 10;
+            while v.len() < len {
+                match rng.below(6) {
+                    0 | 1 => { let o = rng.below(TEXT.len() as u64 - 64) as usize; let l = rng.range(16, 64) as usize; v.extend_from_slice(&TEXT[o..o + l]); }
+                    2 => { for _ in 0..8 { sub(&mut rng, &mut v); } }
+                    3 => { let l = v.len(); if l > 300 { let o = rng.below((l - 128) as u64) as usize; let n = rng.range(8, 128) as usize; let sl: Vec<u8> = v[o..o + n].to_vec(); v.extend_from_slice(&sl); } else { v.extend_from_slice(&TEXT[..64]); } }
+                    _ => { for _ in 0..rng.range(8, 96) { v.push(rng.next() as u8); } }
+                }
+            }
+            v.truncate(len);
+            for k in 1..=2usize {
+                let b = k * ring;                         // stream position of the ring end
+                if b < de + 600 || b - de + 600 > len { continue; }
+                let o = b - de;                           // input offset of that stream position
+                match rng.below(4) {
+                    0 | 1 => {
+                        // stale-tail trap: what the ring held at its START one lap earlier (the tail mirror must have been refreshed)
+                        let m = rng.range(1, 8) as usize;
+                        let lap = (k - 1) * ring;
+                        let s_old: Vec<u8> = (0..m).map(|i| { let p = lap + i; if p < de { dict[d - de + p] } else { v[p - de] } }).collect();
+                        let pl = rng.range(8, 40) as usize;
+                        let pat: Vec<u8> = (0..pl).map(|_| rng.next() as u8).collect();
+                        let c0 = o - rng.range(80, 400) as usize - pl;
+                        v[c0..c0 + pl].copy_from_slice(&pat);
+                        v[c0 + pl..c0 + pl + m].copy_from_slice(&s_old);
+                        v[o - pl..o].copy_from_slice(&pat);   // ends exactly at the ring end
+                        for i in 0..m { v[o + i] = s_old[i] ^ 0x55; }
+                    }
+                    2 => { let r1 = rng.range(0, 64) as usize + rng.range(4, 200) as usize; let r2 = rng.range(0, 64) as usize; let z = if rng.chance(1, 2) { 0u8 } else { rng.next() as u8 }; for x in v[o - r1..o + r2].iter_mut() { *x = z; } }
+                    _ => { let per = *rng.pick(&[2usize, 3, 5, 8, 13]); let r1 = rng.range(per as u64, 300) as usize; let r2 = rng.range(0, 64 + per as u64) as usize; let base: Vec<u8> = (0..per).map(|_| rng.next() as u8).collect(); for (i, x) in v[o - r1..o + r2].iter_mut().enumerate() { *x = base[i % per]; } }
+                }
+            }
         }
         _ => { // long: > ring buffer (q<=3: 2^(1+max(lgwin,14)), else 2^(1+max(lgwin,16..18)))
             let lw = c.lgwin.clamp(10, 24);
@@ -318,6 +391,7 @@ fn run_case(c: &Case, rep: &mut Report, lines: &mut Vec<(String, String)>) {
     p.magic_number = c.magic;
     let mut rng = Rng::new(c.iseed ^ 0xc4a2);
     let enc: Result<Vec<u8>, String> = match c.api {
+        10 | 11 | 12 => { let ch = [7usize, 4093, 65537][(c.api - 10) as usize]; encode_stream_x(&input, &dict, false, &p, &[ch], 1 << 16, &mut |_, _, _, _| ()).map(|x| x.0) }
         0 => encode_stream_x(&input, &dict, false, &p, &[1 << 20], 1 << 16, &mut |_, _, _, _| ()).map(|x| x.0),
         1 => { let chunks: Vec<usize> = (0..5).map(|_| rng.range(1, 3000) as usize).collect(); let oc = rng.range(1, 5000) as usize; encode_stream_x(&input, &dict, true, &p, &chunks, oc, &mut |_, _, _, _| ()).map(|x| x.0) }
         _ => encode_oneshot(&input, &dict, &p, rng.range(1, 70000) as usize, rng.range(1, 70000) as usize, &mut |_, _, _, _| ()),
@@ -328,6 +402,7 @@ fn run_case(c: &Case, rep: &mut Report, lines: &mut Vec<(String, String)>) {
     rep.count(&format!("d.{}", dcl));
     rep.count(&format!("kind.{}", KINDS[c.kind as usize]));
     rep.count(&format!("api.{}", c.api));
+    if c.kind == 6 { let ring = enc_ring_size(c.lgwin, c.q); if input.len() + c.d.min((1usize << c.lgwin.clamp(10, 24)) - 16) > ring { rep.count("ringend.stream_longer_than_ring"); } if input.len() + c.d > 2 * ring { rep.count("ringend.two_laps"); } }
     rep.count(&format!("lgwin.{}", c.lgwin));
     rep.count(&format!("quality.{}", c.q));
     if c.magic { rep.count("magic"); }
@@ -438,6 +513,20 @@ fn cases(thorough: bool, seed: u64) -> Vec<Case> {
             }
         }
     }
+    // ring end: dictionary (odd / even lengths, so that block writes straddle the ring end) + input of 1.2..2.5 ring sizes with
+    // repeats placed across the k*ring stream positions; one call and odd-sized chunks (7, 4093, 65537)
+    for &lgwin in &[10i32, 12, 14, 16] {
+        for q in [2, 3, 4, 5, 6, 7, 9, 10, 11] {
+            let n = if thorough { 16 } else { 4 };
+            for j in 0..n {
+                let ring = enc_ring_size(lgwin, q);
+                let d = *rng.pick(&[1usize, 2, 3, 999, 1000, 1001, ring - 1, ring, ring + 1]);
+                let api = [0u32, 10, 11, 12][j % 4];
+                cs.push(Case { lgwin, q, d, seed: rng.below(251), magic: false, kind: 6, api, iseed: rng.next() >> 16 });
+            }
+        }
+    }
+    for q in [0, 1] { cs.push(Case { lgwin: 10, q, d: 1001, seed: 5, magic: false, kind: 6, api: 11, iseed: rng.next() >> 16 }); }
     // out-of-range window values (clamped by SanitizeParams: accepted settings, same oracle)
     for &lgwin in &[-3i32, 0, 3, 4, 5, 8, 9] {
         for q in [0, 2, 5, 9, 11] { for d in [1usize, 16, 17, 240, 600, 1007, 1008, 1009, 3000] { cs.push(Case { lgwin, q, d, seed: rng.below(251), magic: rng.chance(1, 2), kind: rng.below(3) as u32, api: rng.below(3) as u32, iseed: rng.next() >> 16 }); } }
@@ -567,6 +656,41 @@ pub fn run_cmd(args: &Args) {
     });
     for (o, a) in lines { corr.case(&o, &a); }
     rep.add("corr.book_lines", cl.len() as u64);
+
+    // ---- correspondence: RingBufferWrite over the ring end (straddling writes, tail mirror) after a dictionary of odd / even length
+    {
+        let mut rng = Rng::new(args.seed ^ 0x419e);
+        let mut jobs: Vec<(i32, i32, usize, u64, Vec<usize>)> = Vec::new();
+        let nj = if thorough { 400 } else { 72 };
+        for j in 0..nj {
+            let lgwin = *rng.pick(&[10i32, 11, 12, 13, 14]);
+            let q = *rng.pick(&[2i32, 3, 2, 3, 5]);
+            if q == 5 && j % 6 != 0 { continue; }
+            let ring = enc_ring_size(lgwin, q);
+            let block = if q < 4 { 1usize << 14 } else { 1usize << 16 };
+            let d = *rng.pick(&[1usize, 2, 3, 999, 1000, 1001, 1007, 1008, 5000, ring - 1, ring, ring + 1]);
+            let total = ring * (11 + rng.below(15) as usize) / 10;
+            let mut writes = Vec::new();
+            let mut left = total;
+            let style = rng.below(4);
+            while left > 0 && writes.len() < 200 {
+                let n = match style { 0 => block, 1 => *rng.pick(&[7usize, 4093, block]), 2 => rng.range(1, block as u64) as usize, _ => if rng.chance(1, 3) { rng.range(1, 64) as usize } else { block } }.min(left);
+                writes.push(n);
+                left -= n;
+            }
+            jobs.push((lgwin, q, d, rng.below(251), writes));
+        }
+        let jobs = std::sync::Arc::new(jobs);
+        let j2 = jobs.clone();
+        let lines = par_tasks(jobs.len(), move |i| {
+            let (lgwin, q, d, seed, ref writes) = j2[i];
+            let dict = gen_dict(seed, d);
+            let ans = match ring_writes(&dict, &base_params(q, lgwin), seed, writes) { Ok(b) => b.line(), Err(_) => "panic".to_string() };
+            (format!("dict ringw {} {} {} {} {}", lgwin, q, d, seed, writes.iter().map(|x| x.to_string()).collect::<Vec<_>>().join(",")), ans)
+        });
+        rep.add("corr.ringw_lines", lines.len() as u64);
+        for (o, a) in lines { corr.case(&o, &a); }
+    }
 
     // ---- search: round trip with the same dictionary
     let cs = std::sync::Arc::new(cases(thorough, args.seed));
